@@ -76,7 +76,7 @@ func wnTree(r *rand.Rand, e *Env, names []string, depth, maxDepth, maxKids int, 
 	for i := 0; i < n; i++ {
 		if r.Intn(3) == 0 {
 			*mk++
-			out = append(out, &wnNode{text: fmt.Sprintf("zqmk%06d", *mk)})
+			out = append(out, &wnNode{text: wnMarkerText(r, *mk)})
 			continue
 		}
 		name := names[r.Intn(len(names))]
@@ -90,7 +90,7 @@ func wnTree(r *rand.Rand, e *Env, names []string, depth, maxDepth, maxKids int, 
 		case rawTextNames[name] || spec.IsScriptStyle(name):
 			if r.Intn(4) > 0 { // sometimes an empty body: <script src=x></script>
 				*mk++
-				nd.kids = []*wnNode{{text: fmt.Sprintf("zqmk%06d", *mk)}}
+				nd.kids = []*wnNode{{text: wnMarkerText(r, *mk)}}
 			}
 		case depth < maxDepth && r.Intn(4) > 0:
 			nd.kids = wnTree(r, e, names, depth+1, maxDepth, maxKids, mk)
@@ -98,6 +98,24 @@ func wnTree(r *rand.Rand, e *Env, names []string, depth, maxDepth, maxKids int, 
 		out = append(out, nd)
 	}
 	return out
+}
+
+// wnMarkerText: a unique text node. One in five is made of white space only (form feed, then the
+// index in 20 binary digits written as tab / newline, then form feed): text like any other, and the
+// kind a filter that looks for "visible" characters lets through.
+func wnMarkerText(r *rand.Rand, k int) string {
+	if r.Intn(5) > 0 {
+		return fmt.Sprintf("zqmk%06d", k)
+	}
+	b := []byte{'\f'}
+	for i := 19; i >= 0; i-- {
+		if k>>uint(i)&1 == 1 {
+			b = append(b, '\t')
+		} else {
+			b = append(b, '\n')
+		}
+	}
+	return string(append(b, '\f'))
 }
 
 func wnNames(e *Env) []string {
@@ -207,6 +225,9 @@ func c08Judge(cs *core.Case, env *Env, d *wnDoc, out string, lc core.LocalCounts
 	text := oracle.Text(oracle.Tokens(out))
 	for _, m := range d.markers {
 		present := strings.Contains(text, m.m)
+		if m.m[0] == '\f' {
+			lc["whitespace_only_markers_checked"]++
+		}
 		if m.inside {
 			lc["markers_inside_checked"]++
 			if present || strings.Contains(out, m.m) {
